@@ -87,12 +87,31 @@ def rand_file(rng):
         if rng.random() < 0.7:
             tr.append(MetaMessage('end_of_track', time=rng.choice((0, 0, 100, 10 ** 5))))
         if rng.random() < 0.15:
-            # frozen messages are messages too (mido.frozen)
+            # frozen messages are messages too (mido.frozen) - and they get hashed
             from mido.frozen import freeze_message
             for i in range(len(tr)):
                 if rng.random() < 0.5:
                     tr[i] = freeze_message(tr[i])
+                    if rng.random() < 0.5:
+                        hash(tr[i])
+        if len(tr) > 1 and rng.random() < 0.15:
+            # a repeated bar / a metronome click: the same message objects at several places of the file
+            how = rng.choice(('track*3', 'track+track', 'click', 'tempo-object-twice'))
+            if how == 'track*3':
+                tr = tr * 3
+            elif how == 'track+track':
+                tr = tr + tr
+            elif how == 'click':
+                click = Message('note_on', note=77, channel=9, time=rng.choice((1, 24, 480)))
+                for _ in range(rng.randrange(2, 6)):
+                    tr.insert(rng.randrange(len(tr) + 1), click)
+            else:
+                tm = MetaMessage('set_tempo', tempo=rng.randrange(1, 2 ** 24), time=rng.choice((0, 7, 480)))
+                tr.insert(0, tm)
+                tr.insert(rng.randrange(1, len(tr) + 1), tm)
         mid.tracks.append(tr)
+    if len(mid.tracks) > 1 and mid.type == 1 and rng.random() < 0.1:
+        mid.tracks.append(mid.tracks[0])          # one MidiTrack object used twice
     return mid
 
 
